@@ -17,5 +17,6 @@ MC_Msgs == {<<>>, [k \in 1..300 |-> k % 251]}
 MC_MaxExtra == 1
 MC_EMIT == TRUE
 MC_ListOrders == {"asc"}
+MC_BatchAtEnd == FALSE
 
 ====
